@@ -11,6 +11,9 @@ def U(ident, **kw):
 def pivot():
     d = ["EnumProperty"]
     S = []
+    S.append(EnumSpec("ViaMacro", [U("Red", props=[[("name", "red"), ("rgb", 0xff0000), ("warm", True)]]), U("Blue", props=[[("name", "blue")], [("depth", -7)]]), U("Plain")],
+                      derives=d, macro_args=[("n", "literal", '"red"'), ("i", "literal", "16711680"), ("neg", "literal", "-7"), ("w", "literal", "true")], macro_replace=True,
+                      note="the definition is the body of a macro_rules! macro: property values arrive as $x:literal fragments"))
     S.append(EnumSpec("Col", [
         U("Red", props=[[("name", "red"), ("rgb", 0xff0000), ("warm", True)]]),
         U("Blue", props=[[("name", "blue")], [("rgb", 255), ("warm", False)], [("depth", -7)]]),
